@@ -299,3 +299,85 @@ Definition read_kh_seq (out : str) : option (list (Z * str)) :=
   obind (strip_final_nl out) (fun s => obind (parse_layout (untrim_kh s)) read_seq).
 Definition read_ckh (out : str) : option (list ((Z * Z) * str)) :=
   obind (strip_final_nl out) (fun s => obind (parse_layout (untrim_ckh s)) read_grid).
+
+(* ====================================================================================== *)
+(* Validation of a printed `ckh` table against the library when the two processes need not *)
+(* produce the same generator grid (the tangle-complex builder's elimination order depends *)
+(* on per-process hash seeds; only Euler characteristics are invariant).  Used by the      *)
+(* correspondence check as a fallback; no property theorem depends on it.                  *)
+(* ====================================================================================== *)
+Fixpoint strip_prefix (p s : str) : option str :=
+  match p, s with
+  | [], _ => Some s
+  | x :: p', y :: s' => if (x =? y)%N then strip_prefix p' s' else None
+  | _ :: _, [] => None
+  end.
+Definition unsuperscript_digit (c : N) : option N :=
+  if (c =? 185)%N then Some 49%N else if (c =? 178)%N then Some 50%N else if (c =? 179)%N then Some 51%N
+  else if (8304 <=? c)%N && (c <=? 8313)%N then Some (c - 8304 + 48)%N else None.
+(* "." -> 0, symbol -> 1, symbol^k -> k *)
+Definition rank_of_cell (sym s : str) : option N :=
+  if str_eqb s dot then Some 0%N
+  else match strip_prefix sym s with
+       | None => None
+       | Some [] => Some 1%N
+       | Some sup => match all_some (map unsuperscript_digit sup) with
+                     | Some ds => parse_N_dec ds
+                     | None => None
+                     end
+       end.
+Fixpoint strictly_asc (l : list Z) : bool :=
+  match l with
+  | a :: (b :: _) as r => (a <? b)%Z && strictly_asc r
+  | _ => true
+  end.
+(* sum of (-1)^i * rank per j, as a list sorted by j, zero sums dropped *)
+Fixpoint add_at (j v : Z) (acc : list (Z * Z)) : list (Z * Z) :=
+  match acc with
+  | [] => [(j, v)]
+  | (k, w) :: r => match Z.compare j k with
+                   | Eq => (k, (w + v)%Z) :: r
+                   | Lt => (j, v) :: acc
+                   | Gt => (k, w) :: add_at j v r
+                   end
+  end.
+Definition euler_rows (cells : list ((Z * Z) * N)) : list (Z * Z) :=
+  filter (fun e => negb (snd e =? 0)%Z)
+    (fold_left (fun acc e => let i := fst (fst e) in
+                             add_at (snd (fst e)) ((if Z.even i then 1 else -1) * Z.of_N (snd e))%Z acc) cells []).
+Definition euler_total (cells : list ((Z * Z) * N)) : Z :=
+  fold_left (fun acc e => (acc + (if Z.even (fst (fst e)) then 1 else -1) * Z.of_N (snd e))%Z) cells 0%Z.
+Fixpoint list_eqb {A} (eqb : A -> A -> bool) (a b : list A) : bool :=
+  match a, b with
+  | [], [] => true
+  | x :: a', y :: b' => eqb x y && list_eqb eqb a' b'
+  | _, _ => false
+  end.
+
+(* [text] is exactly the ckh rendering of the table it parses to; that table has the title j\i, strictly
+   ascending columns, strictly descending rows, cells ".", sym or sym^k; and its Euler characteristic(s)
+   equal those of the library's grid *)
+Definition check_ckh_text (sym : str) (graded : bool) (lib : grid2) (text : str) : bool :=
+  match obind (strip_final_nl text) (fun s => parse_layout (untrim_ckh s)) with
+  | Some (((title :: hcols) :: rows) as t) =>
+      str_eqb (trim_end (layout t ++ [10%N]) ++ [10%N]) text &&
+      str_eqb title (s_j ++ [92%N] ++ s_i) &&
+      match all_some (map parse_Z_dec hcols), all_some (map (fun r => parse_Z_dec (hd [] r)) rows) with
+      | Some cols, Some js =>
+          strictly_asc cols && strictly_asc (rev js) &&
+          list_eqb str_eqb (map str_of_Z cols) hcols && list_eqb str_eqb (map str_of_Z js) (map (hd []) rows) &&
+          forallb (fun r => length (tl r) =? length cols) rows &&
+          match all_some (concat (map (fun r => map (rank_of_cell sym) (tl r)) rows)) with
+          | Some ranks =>
+              let keys := concat (map (fun j => map (fun i => (i, j)) cols) js) in
+              let cells := combine keys ranks in
+              let libc := map (fun e => (fst e, s_rank (snd e))) lib in
+              if graded then list_eqb (fun a b => Z.eqb (fst a) (fst b) && Z.eqb (snd a) (snd b))
+                                      (euler_rows cells) (euler_rows libc)
+              else Z.eqb (euler_total cells) (euler_total libc)
+          | None => false
+          end
+      | _, _ => false
+      end
+  | _ => false
+  end.
